@@ -38,7 +38,9 @@ vars == <<shape, ne, todo, visited, level, steps, revisit, status>>
 
 (* ------------------------------------------------------------------ shapes *)
 (* Graphs are enumerated by an integer code (one bit per possible edge / one digit per pointer) so that sampling   *)
-(* by "code + Seed" needs no enumeration of the whole space.                                                       *)
+(* by "code + Seed" needs no enumeration of the whole space.  A sampling modulus must be coprime to the digit base *)
+(* (2 for edges, n+2 / n+3 for pointers): otherwise the seed fixes the low digits - e.g. whether the root has a    *)
+(* self loop - for the whole sample.                                                                              *)
 BitVal == <<1, 2, 4, 8, 16, 32, 64, 128, 256, 512, 1024, 2048, 4096, 8192, 16384, 32768, 65536>>
 RECURSIVE SumSet(_)
 SumSet(S) == IF S = {} THEN 0 ELSE LET x == CHOOSE y \in S : TRUE IN x + SumSet(S \ {x})
@@ -113,7 +115,7 @@ PdfFields == <<"Length", "Size", "W", "Index", "N", "First", "Count", "Prev", "s
                "Widths", "FirstChar", "Rotate", "Extends", "XRefStm", "Info", "Pages", "AcroForm", "DA", "Rect", "AP", "Names">>
 PdfVals == <<"0", "neg", "one", "huge", "huger", "real", "name", "null", "refself", "refdangling", "emptyarray", "string",
              "dict", "deeparray", "longname", "boolean">>
-PdfKept(i, j, k) == PdfMod = 1 \/ (i * 7 + j * 3 + k + Seed) % PdfMod = 0
+PdfKept(i, j, k) == PdfMod = 1 \/ (i * 5 + j * 3 + k + Seed) % PdfMod = 0     \* PdfMod: a prime other than 3 and 5
 PdfMutShapes == {[fam |-> "pdfmut", base |-> t[1], field |-> PdfFields[t[2]], val |-> PdfVals[t[3]], k |-> t[4]] :
                    t \in {u \in PdfBases \X (1..Len(PdfFields)) \X (1..Len(PdfVals)) \X (0..(PdfK - 1)) : PdfKept(u[2], u[3], u[4])}}
 TruncShapes == [fam : {"trunc"}, base : PdfBases, k : 0..(TruncK - 1)]
